@@ -236,6 +236,44 @@ func (e *Env) CompileDDP(name, src string, opt int, extra ...string) (*Compiled,
 	return c, nil
 }
 
+// CompileProject compiles a program of several modules: files maps file names (relative, with
+// .ddp) to their text, main names the root module. All files are placed in one fresh directory.
+func (e *Env) CompileProject(files map[string]string, main string, opt int, extra ...string) (*Compiled, error) {
+	e.mu.Lock()
+	e.n++
+	id := e.n
+	e.mu.Unlock()
+	dir := filepath.Join(e.Dir, fmt.Sprintf("p%d", id))
+	os.MkdirAll(dir, 0o755)
+	for name, src := range files {
+		p := filepath.Join(dir, name)
+		os.MkdirAll(filepath.Dir(p), 0o755)
+		if err := os.WriteFile(p, []byte(src), 0o644); err != nil {
+			return nil, err
+		}
+	}
+	out := filepath.Join(dir, strings.TrimSuffix(main, ".ddp")+".ll")
+	args := append([]string{"kompiliere", filepath.Join(dir, main), "-o", out, "-O", fmt.Sprint(opt), "--list-defs-linken=false"}, extra...)
+	so, se, code, err := run(dir, e.kddpEnv(), 2*time.Minute, e.Kddp, args...)
+	if err != nil {
+		return nil, err
+	}
+	c := &Compiled{LLPath: out, Stderr: se, Stdout: so, Code: code}
+	if code != 0 {
+		return c, nil
+	}
+	if _, err := os.Stat(out); err != nil {
+		c.Code = -2
+		return c, nil
+	}
+	m, err := llread.ParseFile(out)
+	if err != nil {
+		return nil, err
+	}
+	c.Mod = m
+	return c, nil
+}
+
 // WriteFile places an auxiliary file (e.g. an imported module) next to future compilations.
 func (e *Env) WriteFile(rel, content string) (string, error) {
 	p := filepath.Join(e.Dir, rel)
